@@ -91,6 +91,25 @@ fn check_supply(seed: u64) -> i32 {
             }
         }
     }}}}
+    // service_time at large magnitudes: closed-form inverse in 128-bit arithmetic (cross-checked against the least-t search on
+    // the small domain above), at demands around multiples of the budget and within `budget` of u64::MAX
+    let st_spec = |p: u128, q: u128, dl: u128, dem: u128| -> u128 { if dem == 0 { 0 } else { (p - q) + (dl - q) + ((dem - 1) / q) * p + ((dem - 1) % q) + 1 } };
+    for p in 1..=6u64 { for q in 1..=p { for dl in q..=p { for dem in 0..=(3 * q + 1) {
+        let mut t = 0u128; while sbf_spec(p as u128, q as u128, dl as u128, t) < dem as u128 { t += 1; }
+        if st_spec(p as u128, q as u128, dl as u128, dem as u128) != t { return fail("mirror-internal: closed-form service_time", format!("[{}, {}, {}, {}]", p, q, dl, dem), "oracle mismatch".into(), "".into()); }
+    }}}}
+    for (q, p) in [(1u64, 1u64), (3, 5), (1u64 << 62, (1u64 << 62) + 1), (1u64 << 63, (1u64 << 63) + 1), (7, 7), ((1u64 << 40) + 3, (1u64 << 41) + 1)] {
+        for kind in 1..3u64 {
+            let dl = p;
+            let (sb, pp, qq, dd, desc) = supply_case(kind, q, dl, p);
+            for dem in [u64::MAX, u64::MAX - 1, u64::MAX - q / 2, u64::MAX - q, (1u64 << 63) + 5, q, q + 1, 2 * (q / 2) + 1, (1u64 << 53) + 1] {
+                let exp = st_spec(pp, qq, dd, dem as u128);
+                if exp > u64::MAX as u128 { continue; }   // outside the representable range: nothing is claimed
+                let got = guarded(|| ud(sb.service_time(s(dem))));
+                if got != Ok(exp as u64) { return fail("supply::service_time", format!("{{\"supply\": {}, \"demand\": {}}}", desc, dem), format!("{:?}", got), format!("{}", exp)); }
+            }
+        }
+    }
     // large magnitudes (sampled): closed form vs spec in 128-bit arithmetic
     let mut r = Rng(seed ^ 0x5eed);
     for _ in 0..4000 {
